@@ -29,15 +29,15 @@ ASSUMPTIONS = [
     "capacity-infeasible insertions and operators mutating (without corrupting) their input are recorded as L2 events, not violations: the statement does not promise them",
 ]
 STRATA = [
-    ("js-random", 500, 9000),
-    ("js-gaps-zero-repeat", 400, 7000),
-    ("js-contention", 300, 5000),
+    ("js-random", 1200, 18000),
+    ("js-gaps-zero-repeat", 900, 14000),
+    ("js-contention", 700, 10000),
     ("js-exhaustive", 1, 1),
-    ("vrp-single", 90, 1500),
-    ("vrp-multi", 150, 2600),
-    ("vrp-stress", 110, 1900),
-    ("ops-alternating", 500, 9000),
-    ("ops-free", 300, 5000),
+    ("vrp-single", 200, 3000),
+    ("vrp-multi", 400, 6000),
+    ("vrp-stress", 300, 4500),
+    ("ops-alternating", 1500, 22000),
+    ("ops-free", 800, 12000),
 ]
 _OPS_REQUIRED = ["random_removal", "worst_removal", "related_removal", "route_removal", "sync_removal",
                  "greedy_insertion", "regret_insertion", "sync_aware_insertion"]
@@ -46,6 +46,12 @@ REQUIRED_EVENTS = {"any": ["js.result.checked", "js.clause.machine-pairs", "js.c
                            "vrp.op.destroy.removed-multi-route-customer",
                            "vrp.op.repair.inserted-multi-on-several-routes",
                            "vrp.op.repair.multi-left-unassigned"] + ["vrp.op." + o for o in _OPS_REQUIRED]}
+
+# DESIGN.md lists "capacity-infeasible insertion accepted" among the refutations, but the property statement
+# promises only bookkeeping + honest scoring (an overloaded route is scored honestly through capacity_penalty).
+# Following DESIGN.md section 4 rule 1 (the statement wins) it is an L2 event `l2.vrp.capacity-insertion`; flip this
+# switch to make it a violation of class vrp.op.capacity-insertion.
+CAPACITY_INSERTION_DECIDES = False
 
 RULES = ["spt", "lpt", "mwkr", "fifo", "random"]
 INF = float("inf")
@@ -265,7 +271,11 @@ class _Stopper:
 
 
 def _drain(obs):
+    cap_log = list(_mon.CAP_LOG)
     log, count, info, trace = _mon.drain()
+    if CAPACITY_INSERTION_DECIDES:
+        for detail in cap_log:
+            obs.violate("vrp.op.capacity-insertion", detail)
     for k, v in count.items():
         obs.event(k, v)
     for k, v in info.items():
